@@ -48,7 +48,8 @@ def install_sensor_probe():
         return {"id": t.simulation_id, "eci": np.array(t.eci_state, dtype=float).copy(), "vcs": float(t.visual_cross_section), "refl": float(t.reflectivity)}
 
     def before(self, estimate_eci, target_agent, background_agents, *a, **k):
-        return {"sensor": view(self), "estimate": np.array(estimate_eci, dtype=float).copy(), "primary": tview(target_agent), "background": [tview(t) for t in background_agents]}
+        return {"sensor": view(self), "estimate": np.array(estimate_eci, dtype=float).copy(), "primary": tview(target_agent), "background": [tview(t) for t in background_agents],
+                "direct": bool(probes.STATE.get("direct"))}
 
     def after(self, tok, res, *a, **k):
         obs, missed, boresight, tlt = res
@@ -69,7 +70,7 @@ class C02(Check):
     thorough_budget_s = 1200.0
     per_run_timeout_s = 300.0
     rule = ("case = small network run (optical / radar / adv-radar, ground and space hosts, drawn masks, FoVs, slew rates, ranges, placed targets; noise on or off; background on or off); "
-            "every collectObservations call of the run is judged; non-trivial = >= 1 call judged; distinct = digest of the configuration")
+            "0-8 further taskings issued by the harness itself at the final epoch (any sensor to any target, pointing at the truth, near it, at another target or far off); every collectObservations call is judged; non-trivial = >= 1 call judged; distinct = digest of the configuration")
     assumptions = [
         "the repo's IAU-76/FK5 eci2ecef is used by the harness at the exact epoch computed by integer arithmetic (C04 is about the transform itself); everything downstream (geodetic latitude, SEZ basis, az/el/range/range-rate, FoV, masks, slew, line of sight, radar equation, optical rules) is rsim's own",
         "three-valued predicates: within 1e-6 rad / 1e-6 km of a limit the oracle abstains; 5e-4 rad where its low-precision analytic Sun enters; abstentions are counted as indeterminate",
@@ -124,8 +125,14 @@ class C02(Check):
                         x0 = kepler.propagate(xt, -k * step)
                         t = rng.choice(e["targets"])
                         t["state"]["position"], t["state"]["velocity"] = [float(v) for v in x0[:3]], [float(v) for v in x0[3:]]
+        # direct taskings issued by the harness after the run (it plays the tasking engine): any sensor to any target, whether or not it can see it
+        direct = []
+        if rng.random() < 0.6:
+            for _ in range(rng.randrange(1, 9)):
+                direct.append({"sensor": rng.random(), "target": rng.random(), "pointing": rng.choice(["truth", "truth", "near", "near", "other", "far"]),
+                               "offset": [rng.gauss(0, 1) for _ in range(3)], "scale": rng.choice([0.2, 1.0, 3.0]), "background": rng.random() < 0.7})
         return {"config": cfg, "plan": [{"seconds": ncfg * step}], "schedule": {"name": "seeded", "seed": rng.randrange(2**31)}, "job_seed": rng.randrange(2**31),
-                "noise": rng.choice(["off", "off", "on"])}
+                "noise": rng.choice(["off", "off", "on"]), "direct": direct}
 
     def sample_view(self, case):
         c = case["config"]
@@ -146,6 +153,8 @@ class C02(Check):
                 if raised_in_harness(ctx.error):
                     raise ctx.error
                 cnt["aborted_" + type(ctx.error).__name__] = 1
+            elif case.get("direct") and ctx.app is not None:
+                self._direct_phase(ctx.app, case["direct"])
             from resonaate.physics.transforms.methods import eci2ecef
 
             max_meas = {}
@@ -165,9 +174,11 @@ class C02(Check):
                 # the state the sensor starts this call with must be what rsim's own bookkeeping says it was left in
                 # by its last tasking (any of them when several jobs of one step tasked it, see C08 finding F11)
                 for sid0, (k0, lst) in list(pending.items()):
-                    if k0 < k:
+                    if k0 < k or (r.get("direct") and sid0 == sen["id"]):
                         book[sid0] = lst
                         del pending[sid0]
+                if r.get("direct"):
+                    cnt["direct_taskings"] = cnt.get("direct_taskings", 0) + 1
                 if sen["id"] in book:
                     ok_state = any(float(np.linalg.norm(np.asarray(b) - sen["boresight"])) <= 1e-9 and abs(t - sen["last_tasked"]) <= 1e-9 for b, t in book[sen["id"]])
                     if not ok_state:
@@ -237,7 +248,7 @@ class C02(Check):
                 new_state = (prho0 / np.linalg.norm(prho0), sen["time"])
                 old_state = (sen["boresight"], sen["last_tasked"])
                 options = [new_state] if slew_ok is True else ([old_state] if slew_ok is False else [new_state, old_state])
-                if sen["id"] in pending and pending[sen["id"]][0] == k:
+                if sen["id"] in pending and pending[sen["id"]][0] == k and not r.get("direct"):
                     pending[sen["id"]][1].extend(options)
                 else:
                     pending[sen["id"]] = (k, list(options))
@@ -277,8 +288,42 @@ class C02(Check):
             cleanup(ctx)
         return res
 
+    @staticmethod
+    def _direct_phase(app, direct):
+        """The harness as tasking engine: task drawn (sensor, target) pairs at the final epoch, visible or not."""
+        sensors = [app.sensor_agents[k] for k in sorted(app.sensor_agents)]
+        targets = [app.target_agents[k] for k in sorted(app.target_agents)]
+        if not sensors or not targets:
+            return
+        probes.STATE["direct"] = True
+        try:
+            for d in direct:
+                sa = sensors[int(d["sensor"] * len(sensors)) % len(sensors)]
+                tgt = targets[int(d["target"] * len(targets)) % len(targets)]
+                truth = np.array(tgt.eci_state, dtype=float)
+                rng_km = float(np.linalg.norm(truth[:3] - np.asarray(sa.eci_state, dtype=float)[:3]))
+                off = np.asarray(d["offset"], dtype=float)
+                off = off / (np.linalg.norm(off) or 1.0)
+                fov = sa.sensors.field_of_view
+                half = float(getattr(fov, "cone_angle", None) or min(fov.azimuth_angle, fov.elevation_angle)) / 2
+                point = truth.copy()
+                if d["pointing"] == "near":      # pointing error comparable to the half field of view
+                    point[:3] += off * rng_km * math.tan(min(half, 1.0)) * d["scale"]
+                elif d["pointing"] == "far":
+                    point[:3] += off * rng_km * 2.0
+                elif d["pointing"] == "other" and len(targets) > 1:
+                    point = np.array(targets[(targets.index(tgt) + 1) % len(targets)].eci_state, dtype=float)
+                if float(np.linalg.norm(point[:3])) < 1.0:
+                    point = truth.copy()
+                background = [t for t in targets if t is not tgt] if d["background"] else []
+                sa.sensors.collectObservations(point, tgt, background)
+        finally:
+            probes.STATE["direct"] = False
+
     def shrink_candidates(self, case, violation):
         yield from generic_shrinks(case)
+        for i in range(len(case.get("direct") or [])):
+            yield variant(case, f"drop-direct-{i}", lambda c, i=i: c["direct"].pop(i))
         cfg = case["config"]
         for ei, e in enumerate(cfg["engines"]):
             if len(e["targets"]) > 1:
